@@ -42,11 +42,12 @@ Enc(path) == IF path = <<>> THEN <<>>
 
 (* namespace_upper_bound: same length, last non-maximal byte incremented, trailing
    maximal bytes zeroed; result None = "no upper bound" *)
-RECURSIVE Incr(_)
-Incr(p) == IF p = <<>> THEN <<>>       \* nothing left to increment: wrapped
-           ELSE IF p[Len(p)] = MaxByte
-                THEN Append(Incr(SubSeq(p, 1, Len(p) - 1)), 0)
-                ELSE [p EXCEPT ![Len(p)] = @ + 1]
+(* not recursive, so that a 65535-byte segment costs O(n) *)
+Incr(p) ==
+    LET nz == {j \in 1..Len(p) : p[j] # MaxByte} IN
+    IF nz = {} THEN [j \in 1..Len(p) |-> 0]       \* nothing left to increment: wrapped
+    ELSE LET i == CHOOSE x \in nz : \A y \in nz : y <= x IN
+         [j \in 1..Len(p) |-> IF j < i THEN p[j] ELSE IF j = i THEN p[j] + 1 ELSE 0]
 
 AllMax(p) == \A i \in 1..Len(p) : p[i] = MaxByte
 
